@@ -83,6 +83,10 @@ macro_rules! forward_display {
         impl fmt::$impl for NInt {
             fn fmt(&self, formatter: &mut fmt::Formatter) -> fmt::Result {
                 match self {
+                    // negative machine words would print as two's complement in hex/octal/binary
+                    // while big integers print sign and magnitude: always use the latter so
+                    // the text depends only on the value
+                    NInt::Small(n) if *n < 0 => fmt::$impl::fmt(&BigInt::from(*n), formatter),
                     NInt::Small(n) => fmt::$impl::fmt(n, formatter),
                     NInt::Big(n) => fmt::$impl::fmt(n, formatter),
                 }
